@@ -568,6 +568,18 @@ func dialogOps(o *Out, seed uint64, n int, corpus string) {
 		o.Run("dialog " + strings.Join(lines, " "))
 		o.Stat("game_dialogues")
 	}
+	// a long game (more plies than the uint8 counters hold) through the real position handler
+	for i, tries := 0, 0; i < 1+n/300 && tries < 20; tries++ {
+		moves := longGame(rng)
+		if len(moves) <= 255 {
+			continue
+		}
+		i++
+		cut := 200 + rng.Intn(len(moves)-200)
+		o.Run("dialog " + hexOf("position startpos moves "+strings.Join(moves[:cut], " ")) + " " + hexOf("go depth 1") + " " +
+			hexOf("position startpos moves "+strings.Join(moves, " ")) + " " + hexOf("go depth 2") + " " + hexOf("isready"))
+		o.Stat("long_game_dialogues")
+	}
 	garbage := []string{"xyzzy", "joho", "1234", "Go", "POSITION"}
 	for i := 0; i < n; i++ {
 		var lines []string
